@@ -92,3 +92,8 @@ func ForAll(r *evid.Run, vs []View, mk func(w *enum.Worker, v View) func(s []byt
 		r.Bound("%s", v.String())
 	}
 }
+
+// EscapeAtoms is an escape-sensitive menu of string-body atoms: the boundary code units of the surrogate
+// ranges as \u escapes (both letter cases), their neighbours outside the ranges, raw multi-byte characters,
+// raw surrogate bytes, plain escapes and truncated escapes.
+var EscapeAtoms = enum.Syms(`\ud800`, `\udbff`, `\udc00`, `\udfff`, `\uD83D`, `\uDE00`, `\ud7ff`, `\ue000`, `\u0041`, `\uffff`, `\u0000`, `a`, `\n`, `\\`, "é", "\xed\xa0\x80", "\xed\xb0\x80", `\u`, `\ud8`)
